@@ -212,8 +212,8 @@ def _model(ctx):
     runs = [("Names", "Names.cfg", None, "Names exhaustive: names x cmap, <= 3 glyphs"),
             ("Names", "NamesTinyRules.cfg", None, "Names exhaustive: names x 1 GSUB rule, <= 3 glyphs")]
     if not ctx.quick():
-        runs += [("Names", "NamesTinyCmap.cfg", None, "Names exhaustive: names x 3 codes, <= 4 glyphs"),
-                 ("Names", "NamesTinyAll.cfg", None, "Names exhaustive: names x cmap x 1 rule, <= 3 glyphs"),
+        runs += [("Names", "NamesTinyCmap.cfg", None, "Names exhaustive: names x 2 codes, <= 4 glyphs"),
+                 ("Names", "NamesTinyAll.cfg", None, "Names exhaustive: names x 1 code x 1 rule, <= 3 glyphs"),
                  ("Names", "NamesX.cfg", {"NamesX.cfg": _cfg("NamesTinyRules.cfg", MaxRules="2", MaxN="2",
                                                               LigLens="{1, 2, 3}")},
                   "Names exhaustive: names x 2 GSUB rules, <= 2 glyphs")]
@@ -222,9 +222,15 @@ def _model(ctx):
         if not res.ok:
             raise vlib.Infra("%s (%s) violates %s on the model -- the specification is wrong, not the code:\n%s"
                              % (module, cfg, res.violated, res.error_text[:1500]))
+    # the law has teeth on the model: a reference whose ligature branch renames named targets
+    # (the shape of names.go:161) must be refused on some tiny description
+    res = ctx.tlc("Names", cfg="NamesBug.cfg", timeout=600, label="Names: faulty ligature branch is refused (violation expected)")
+    if res.violated != "BugAccepted":
+        raise vlib.Infra("the law accepts the faulty reference completion X on every tiny description "
+                         "(expected a counterexample to BugAccepted, got %r)" % res.violated)
     ctx.cov["exhaustive"] = True
     ctx.cov["bounds"] = {
-        "exhaustive_model": "<= 3 glyphs (4 without rules), 6 pool names + own + missing per glyph, codes {A, ij(, U+0221)}, "
+        "exhaustive_model": "<= 3 glyphs (4 without rules), 6 pool names + own + missing per glyph, codes {A, ij}, "
                             "<= 1 GSUB rule of type 1/3/4 (2 rules for 2 glyphs in the thorough tier), every length of the names list",
         "generated_fonts": "<= 6 glyphs, 16 pool names, 8 code points, <= 4 rules in shared or separate subtables, ttf/cff/cid",
         "calls": "20 per process, 3-4 processes; 200 per process when a failure is reproduced",
@@ -247,7 +253,7 @@ def _generate(ctx):
                 cases.append(c)
 
     w = 4
-    ntr = ctx.pick(420, 3000)
+    ntr = ctx.pick(360, 3000)
     take(ctx.tlc("Names", cfg="NamesGen.cfg", workers=w, simulate=ntr, depth=80, timeout=1500,
                  label="Names generation (simulate, 6 glyphs)"), "generation")
     # a smaller alphabet makes collisions between given names, glyph-list names and ligature names frequent
@@ -316,7 +322,7 @@ def _psnames(ctx, binp):
     files = None
     cfg = "NamesPS.cfg"
     if ctx.quick():
-        files = {"NamesPSq.cfg": _cfg("NamesPS.cfg", Widths="{5, 12}", Weights="{400, 700}")}
+        files = {"NamesPSq.cfg": _cfg("NamesPS.cfg", Widths="{5, 12}", Weights="{400}")}
         cfg = "NamesPSq.cfg"
     res = ctx.tlc("NamesPS", cfg=cfg, files=files, timeout=900, label="NamesPS exhaustive + generation")
     if not res.ok:
@@ -329,7 +335,7 @@ def _psnames(ctx, binp):
     t1 = os.path.join(d, "ps1.ndjson")
     ctx.run([binp, "ps", cp, t1])
     t2 = os.path.join(d, "ps2.ndjson")
-    ctx.run([binp, "pssweep", str(ctx.pick(2000, 20000)), t2])
+    ctx.run([binp, "pssweep", str(ctx.pick(1000, 20000)), t2])
     bad = []
     for tp, label in ((t1, "NamesTrace: PostScript names, TLC cases"), (t2, "NamesTrace: PostScript names, sweep")):
         evs = vlib.read_ndjson(tp)
